@@ -115,6 +115,18 @@ fn p_cvec_foreign_built() {
     assert!(cv.len() == 3 && cv[0] == a && cv[1] == c && cv[2] == b && cv.capacity() == 8, "C16 Rust operations work on the caller's buffer and see the capacity the reserve function published");
     unsafe { assert!(F_BUF[0] == a && F_BUF[1] == c && F_BUF[2] == b, "C16 the elements live in the caller's buffer") };
     assert!(cv.pop() == Some(b));
+    {
+        // a clone is allocated by Rust: it must carry the functions of ITS allocator, never the caller's
+        let cl = cv.clone();
+        assert!(cl.len() == 2 && cl[0] == a && cl[1] == c && cl.as_ptr() as usize != cv.as_ptr() as usize, "C16 a clone of a caller-built vector has the same elements in its own buffer");
+        let mut tgt: CVec<u64> = CVec::from(std::vec![1u64, 2, 3, 4]);
+        tgt.clone_from(&cv);
+        let tv: VecView<u64> = unsafe { core::mem::transmute_copy(&tgt) };
+        assert!(tv.len == 2 && unsafe { *tv.data } == a && unsafe { *tv.data.add(1) } == c && tv.capacity >= 2, "C16 after clone_from a C caller reads the source's length and elements through the fields");
+        drop(cl);
+        drop(tgt);
+        unsafe { assert!(F_DROP.0 == 0 && F_RESERVE == 1, "C16 buffers allocated by Rust are never handed to the caller's functions") };
+    }
     let data = cv.as_ptr() as usize;
     drop(cv);
     unsafe { assert!(F_DROP == (1, data, 2, 8), "C16 drop calls the published drop function once with (data, len, capacity)") };
